@@ -51,6 +51,11 @@ SOURCES = {
     "swap_cab": "def test(c: bool, a: bool, b: bool) -> bool:\n    return a and not b\n",
     "swap_int_ab": "def test(a: Qint[2], b: Qint[2]) -> bool:\n    return a > b\n",
     "swap_int_ba": "def test(b: Qint[2], a: Qint[2]) -> bool:\n    return a > b\n",
+    # literals that are equal as Python values but of different kinds (1 and 1.0, 2 and 2.0)
+    "fx_one": "def test(a: Qfixed[2, 2]) -> Qfixed[2, 2]:\n    return a + 1.0\n",
+    "int_sub_one": "def test(a: Qint[2]) -> Qint[4]:\n    return a - 1\n",
+    "fx_two": "def test(a: Qfixed[2, 2]) -> bool:\n    return a >= 2.0\n",
+    "int_two": "def test(a: Qint[4]) -> Qint[4]:\n    return (a + 2) ^ 0\n",
     "ifelse": "def test(a: Qint[2], b: bool) -> Qint[2]:\n    c = a\n    if b:\n        c = a + 1\n    else:\n        c = a ^ 1\n    return c\n",
     "forloop": "def test(a: Qlist[bool, 3]) -> bool:\n    s = False\n    for x in a:\n        s = s ^ x\n    return s\n",
 }
